@@ -261,6 +261,70 @@ impl Group for C11Stub {
     }
 }
 
+/// The on-chain END OF LIFE of the ready channel: its funding transaction confirms (`blkt f`), a transaction spends the
+/// funding outpoint (`blkt c`), MIN_DEPTH (100) blocks bury it (`blkn`), the node forgets the channel and a heartbeat
+/// PRUNES it (channel entry deleted, tracker entry rewritten without the monitor) — for a channel keyed by its initial id
+/// only and for one with a permanent id (`world perm`), through the plain and the composite persister, with restarts
+/// in between and afterwards.  Monitor-only: the node-request model has no on-chain events.
+pub struct C11Prune;
+
+impl Group for C11Prune {
+    fn property(&self) -> &'static str { "C11" }
+    fn model(&self) -> Option<&'static str> { None }
+    fn rule(&self) -> &'static str {
+        "end-of-life histories of the ready channel (funding confirmed, funding outpoint spent, buried around MIN_DEPTH,          forget, heartbeat prune, restarts, re-creation) for both id styles and persisters; after every request the durable          view of a second node restored from the store (and from the crash point between prepare and commit) is compared          with the running node; monitor-only; non-trivial = the channel's funding is confirmed and spent and a heartbeat          runs afterwards"
+    }
+    fn budget(&self, tier: Tier) -> usize { if tier == Tier::Quick { 60 } else { 500 } }
+    fn corpus(&self) -> Vec<Vec<String>> {
+        let c = |s: &str| s.split('|').map(|x| x.to_string()).collect::<Vec<_>>();
+        vec![
+            c("blkt f|blkt c|blkn 100|forget 0|hb|restart|hb|newch 2"),
+            c("world perm|vh 0 g 0|rv 0|blkt f|blkn 2|blkt c|blkn 99|forget 0|hb|blk+ g|hb|restart|newch 2|hb"),
+            c("world perm|blkt f|blkt c|forget 0|blkn 100|restart|hb|restart"),
+            c("world backup|blkt f|scp 0 0|blkt c|blkn 101|HFORGET 0|HHB|restart|mainloss|hb"),
+        ]
+    }
+    fn gen_case(&self, rng: &mut Rng, _tier: Tier) -> Vec<String> {
+        let mut ops: Vec<String> = vec![];
+        match rng.below(5) { 0 | 1 => ops.push("world perm".into()), 2 => ops.push("world backup".into()), _ => {} }
+        let traffic = |rng: &mut Rng, ops: &mut Vec<String>| {
+            for _ in 0..rng.below(3) {
+                ops.push(rng.pick(&["vh 0 g 0", "rv 0", "scp 0 0", "al add g", "ks 1000", "newch 2", "blk+ g", "restart", "hb"]).to_string());
+            }
+        };
+        traffic(rng, &mut ops);
+        ops.push("blkt f".into());
+        if rng.chance(1, 2) { ops.push(format!("blkn {}", rng.range(1, 4))); }
+        traffic(rng, &mut ops);
+        ops.push("blkt c".into());
+        // forget before, in the middle of, or after the burial; the burial just below, at and above MIN_DEPTH
+        let depth = *rng.pick(&[97u64, 98, 99, 100, 100, 101, 104]);
+        let forget = if rng.chance(1, 3) { "HFORGET 0" } else { "forget 0" };
+        match rng.below(3) {
+            0 => { ops.push(forget.into()); ops.push(format!("blkn {}", depth)); }
+            1 => { ops.push(format!("blkn {}", depth / 2)); ops.push(forget.into()); ops.push(format!("blkn {}", depth - depth / 2)); }
+            _ => { ops.push(format!("blkn {}", depth)); ops.push(forget.into()); }
+        }
+        if rng.chance(1, 4) { ops.push("restart".into()); }
+        ops.push(if rng.chance(1, 3) { "HHB".into() } else { "hb".into() });
+        for _ in 0..rng.range(1, 5) {
+            ops.push(rng.pick(&["restart", "hb", "blk+ g", "blkn 2", "newch 2", "forget 0", "restart", "HHB", "al add g", "mainloss"]).to_string());
+        }
+        if ops.first().map(|o| o != "world backup").unwrap_or(true) { ops.retain(|o| o != "mainloss"); }
+        ops
+    }
+    fn exec_case(&self, ops: &[String]) -> CaseOut {
+        let mut co = exec_c11(ops);
+        let pos = |p: &str| ops.iter().position(|o| o == p);
+        let done = match (pos("blkt f"), pos("blkt c")) {
+            (Some(f), Some(c)) => f < c && ops[c..].iter().any(|o| o == "hb" || o == "HHB"),
+            _ => false,
+        };
+        co.nontrivial = done && !co.out.iter().any(|o| o.contains("no-funding-tx"));
+        co
+    }
+}
+
 pub fn groups() -> Vec<Box<dyn Group>> {
-    vec![Box::new(C11Sim), Box::new(C11Stub), Box::new(backup::C11Backup)]
+    vec![Box::new(C11Sim), Box::new(C11Stub), Box::new(C11Prune), Box::new(backup::C11Backup)]
 }
